@@ -194,6 +194,7 @@ class TemplateData(object):
             self.nbits_associated_list = []  # 204 YYY
             self.data_not_present_count = 0  # 221
             self.waiting_for_qa_info_meaning = False
+            self.qa_info_values_started = False
             self.waiting_for_1st_order_stats_meaning = False
             self.waiting_for_difference_stats_meaning = False
 
@@ -218,12 +219,24 @@ class TemplateData(object):
         self.index_to_node[node.index] = node
         return node
 
+    def conclude_qa_info_values(self):
+        # As in the coder: once quality values (class 33) have been seen after
+        # 222000, the first element of another class concludes them. A class 33
+        # element that comes later is an ordinary member of the template.
+        if self.qa_info_values_started:
+            self.waiting_for_qa_info_meaning = False
+            self.qa_info_values_started = False
+
     def add_delayed_replication_factor_node(self):
+        self.conclude_qa_info_values()
         factor_node = ValueDataNode(*self.get_next_descriptor_and_index())
         self.index_to_node[factor_node.index] = factor_node
         return factor_node
 
     def wire_element_descriptor(self, descriptor):
+        if descriptor.X != 33:
+            self.conclude_qa_info_values()
+
         # Read associated field if exists
         if self.nbits_associated_list and descriptor.X != 31:
             assoc_node = AssociatedFieldNode(*self.get_next_descriptor_and_index())
@@ -234,6 +247,7 @@ class TemplateData(object):
 
         else:
             if descriptor.X == 33 and self.waiting_for_qa_info_meaning:
+                self.qa_info_values_started = True
                 node = self.add_node(QualityInfoNode(*self.get_next_descriptor_and_index()))
                 self.index_to_node[self.bitmap_links[node.index]].add_attribute(node)
 
@@ -322,6 +336,7 @@ class TemplateData(object):
 
         elif operator_code == 222:  # quality info follows
             self.waiting_for_qa_info_meaning = True
+            self.qa_info_values_started = False
             self.add_value_node()
 
         elif operator_code == 223:  # substituted value
